@@ -5,9 +5,10 @@ VARIABLE c
 Cfgs == [fclass : {"plain", "arg", "nanfl", "fl", "bwonly"}, engine : {"none", "numpy", "numba", "flox", "numbagg"},
          method : {"none", "map-reduce", "cohorts", "blockwise"}, reindex : {"none", "true", "false"},
          arrDask : BOOLEAN, byDask : BOOLEAN, expected : BOOLEAN, dtypeArg : BOOLEAN, floatData : BOOLEAN,
-         allAxes : BOOLEAN, byNdim : {1, 2}, pref : {"blockwise", "cohorts", "map-reduce"}, hasCohorts : BOOLEAN, oneBlock : BOOLEAN]
+         allAxes : BOOLEAN, byNdim : {1, 2}, pref : {"blockwise", "cohorts", "map-reduce"}, hasCohorts : BOOLEAN, hasCohortsM : BOOLEAN, oneBlock : BOOLEAN]
 \* planner facts that can occur together
 Consistent(x) == /\ (x.pref = "cohorts" => x.hasCohorts)
+                 /\ (x.hasCohorts => x.hasCohortsM)          \* merging never loses the cohorts
                  /\ (x.pref = "blockwise" => x.hasCohorts \/ TRUE)
                  /\ (x.byNdim = 1 => x.allAxes)
                  /\ (x.oneBlock => x.pref = "blockwise")
